@@ -10,6 +10,6 @@ if [ ! -x "$V/.build/vinstr" ] || [ -n "$(find "$V/tools/vinstr" -name '*.go' -n
 fi
 SCRATCH=$(mktemp -d "${VERIF_SCRATCH:-/dev/shm}/vinstr.XXXXXX")
 trap 'rm -rf "$SCRATCH"' EXIT
-"$V/.build/vinstr" -repo /repo -out "$SCRATCH" -vsched "$V/engine/vsched" > "$SCRATCH/vinstr.log" || { cat "$SCRATCH/vinstr.log" >&2; exit 2; }
+"$V/.build/vinstr" -repo /repo -out "$SCRATCH" -vsched "$V/engine/vsched" -extra "/repo/html/zz_verif_reset.go=$V/engine/hooks/html_reset.go" > "$SCRATCH/vinstr.log" || { cat "$SCRATCH/vinstr.log" >&2; exit 2; }
 cp "$SCRATCH/vinstr-report.json" "$V/.build/vinstr-report.json"
 (cd "$V/harness" && go build -overlay "$SCRATCH/overlay.json" -o "$OUT" "./cmd/$NAME")
